@@ -8,11 +8,13 @@ PLAIN = {"poll": 5, "ping_rate": 0, "ping_timeout": 0, "close_timeout": 0, "auto
 def instances(tier):
     q = tier == 'quick'
     return [{"label": "violations-among-valid-frames", "cfg": PLAIN,
-             "consts": dict(HttpItems='HttpOk', Items='C04Items', Cfg='CfgPlain', MaxItems=2 if q else 3,
-                            ChunkMax=2 if q else 3, Conforming=False)},
+             "consts": dict(HttpItems='HttpOk', Items='C04Items', Cfg='CfgPlain', MaxItems=2, ChunkMax=2, Conforming=False)},
             {"label": "violations-while-closing", "cfg": PLAIN,
-             "consts": dict(HttpItems='HttpOk', Items='C04CloseItems', Cfg='CfgPlain', MaxItems=3 if q else 4, ChunkMax=2,
-                            Conforming=False, Reacts={"none", "close"}, ReactAt={"ready", "text"}, MaxReacts=1)}]
+             "consts": dict(HttpItems='HttpOk', Items='C04CloseItems', Cfg='CfgPlain', MaxItems=3, ChunkMax=2,
+                            Conforming=False, Reacts={"none", "close"}, ReactAt={"ready", "text"}, MaxReacts=1)}] + ([] if q else [
+            {"label": "violations-deep-simulation", "cfg": PLAIN, "simulate": "num=30000", "depth": 300,
+             "consts": dict(HttpItems='HttpOk', Items='C04Items', Cfg='CfgPlain', MaxItems=6, ChunkMax=3, Conforming=False,
+                            Reacts={"none", "close"}, ReactAt={"ready", "text", "ping"}, MaxReacts=1)}])
 
 
 def variants(sc, b):
